@@ -171,7 +171,11 @@ func c13Run(c *runner.Ctx) {
 				if pl != nil {
 					pls = append(pls, plRec{pl, kind, si, q.field, q.term, q.except})
 				}
-				if pi != nil {
+				if pi != nil && step%3 == 1 && !st.replaced {
+					// the caller is done with this iterator and closes it (it is not used again); the LIST it came from stays in use
+					pi.Close()
+					c.Inc("iterators_closed_list_kept", 1)
+				} else if pi != nil {
 					pis = append(pis, piRec{pi, kind, si, q.stopAt < 1})
 				}
 				if len(pls) > 12 {
